@@ -66,6 +66,31 @@ where
             } else if pos != bytes.len() {
                 viol(rep, "position", ty, &format!("position {} != encoded length {}", pos, bytes.len()), v.show(), &bytes, replay());
             } else {
+                // the free functions are the same codec: decode / decode_with / encode / encode_with /
+                // to_vec_with must agree with the Decoder / to_vec path
+                let api = mon::guarded(|| {
+                    let a: Result<T, _> = minicbor::decode(&input);
+                    let b: Result<T, _> = minicbor::decode_with(&input, &mut ());
+                    let mut e1 = Vec::new();
+                    let r1 = minicbor::encode(v, &mut e1).is_ok();
+                    let mut e2 = Vec::new();
+                    let r2 = minicbor::encode_with(v, &mut e2, &mut ()).is_ok();
+                    let e3 = minicbor::to_vec_with(v, &mut ()).ok();
+                    let mut d = Decoder::new(&input);
+                    let c: Result<T, _> = d.decode_with(&mut ());
+                    (a.map_err(|e| e.to_string()), b.map_err(|e| e.to_string()), r1 && e1 == bytes, r2 && e2 == bytes, e3.as_deref() == Some(&bytes[..]), c.map_err(|e| e.to_string()))
+                });
+                match api {
+                    Err(p) => viol(rep, "api-panic", ty, &format!("a free function panicked: {} at {}", p.message, p.location), v.show(), &bytes, replay()),
+                    Ok((a, b, e1, e2, e3, c)) => {
+                        let ok = |r: &Result<T, String>| matches!(r, Ok(w) if v.same(w));
+                        if !ok(&a) || !ok(&b) || !ok(&c) {
+                            viol(rep, "api-decode", ty, &format!("minicbor::decode -> {:?}, decode_with -> {:?}, Decoder::decode_with -> {:?} on the value's own encoding", a.map(|w| w.show()), b.map(|w| w.show()), c.map(|w| w.show())), v.show(), &bytes, replay());
+                        } else if !(e1 && e2 && e3) {
+                            viol(rep, "api-encode", ty, &format!("encode / encode_with / to_vec_with agree with to_vec: {} / {} / {}", e1, e2, e3), v.show(), &bytes, replay());
+                        }
+                    }
+                }
                 rep.seen(hash_mix(fnv64(ty.as_bytes()), fnv64(&bytes)));
                 if rep.want_sample() && bytes.len() > 2 {
                     rep.sample(J::obj().with("type", J::s(ty)).with("value", J::s(v.show())).with("encoded", J::s(hex(&bytes[..bytes.len().min(64)]))));
